@@ -1367,6 +1367,11 @@ scan_element(CPPInstance *element, CPPStructType *struct_type,
     return 0;
   }
 
+  if (struct_type != nullptr && in_ignoremember(element->get_simple_name())) {
+    // The user requested us to ignore members of this name.
+    return 0;
+  }
+
   // Make sure the element knows what its scope is.
   if (element->_ident->_native_scope != scope) {
     element = new CPPInstance(*element);
